@@ -580,6 +580,12 @@ def run(root):
         j = absint.join(absint.D(0, g=2), absint.D(0, g=2, s=1))
         if not absint.is_may(j) or absint.is_may(absint.add(absint.D(0, g=2), absint.D(0, g=2, s=1))):
             fails.append(f"absint: join / sum of different degrees not told apart: {j!r}")
+        # items of a container are all there (?part, a definite mixture for the container as a whole); ONE element taken out is one of them (?alt)
+        n += 1
+        box = absint.num(absint.Lst([absint.D(1, g=1), absint.D(1, g=-1)]))
+        one = absint.elem(box)
+        if absint.is_may(box) or len(box.sup) != 2 or not absint.is_may(one):
+            fails.append(f"absint: container union / element extraction: {box!r} -> {one!r}")
         # polynomial substitution under atoms
         n += 1
         from .poly import P_div
